@@ -150,7 +150,7 @@ func (p *ProjectionParser) makeProjection(s *Projection, q string, proj parse.Fi
 	var initField func(field *Field)
 	var filter filterFn
 	makeFilter := func(ext extractor) {}
-	if proj.Order == "fixed" {
+	if proj.Order == "fixed" && len(proj.Fixed) > 0 {
 		fixedMap := make(map[string]int, len(proj.Fixed))
 		for i, s := range proj.Fixed {
 			fixedMap[s] = i
